@@ -367,6 +367,7 @@ func (P *Program) CodecTypes() []*CodecType {
 }
 
 func typeKey(T types.Type) string {
+	T = unaliasDeep(T)
 	s := types.TypeString(T, func(p *types.Package) string {
 		if p.Path() == modPath {
 			return "avro"
@@ -427,4 +428,14 @@ func (P *Program) Reachable(g *callgraph.Graph, roots []*ssa.Function) map[*ssa.
 		}
 	}
 	return seen
+}
+
+// unaliasDeep resolves aliases at the top level and under one pointer, so
+// that Int64Codec and IntCodec[int64] print alike.
+func unaliasDeep(T types.Type) types.Type {
+	T = types.Unalias(T)
+	if p, ok := T.(*types.Pointer); ok {
+		return types.NewPointer(types.Unalias(p.Elem()))
+	}
+	return T
 }
